@@ -20,6 +20,7 @@ def Rep.samples (r : Rep α) : List α := r.deltas.map (· + r.rvalue)
 /-- `reweight(weight, [obs], all_configs=...)` for one observable -/
 def reweight1 (w o : Obs α) (allConfigs : Bool) : Except CombErr (Obs α) := do
   if o.covs.length > 0 then throw .covobs
+  if w.covs.length > 0 then throw .covobs
   if !(o.names.all (fun n => w.names.contains n)) then throw .ensemblesDoNotFit
   if o.mcNames.length > 1 || w.mcNames.length > 1 then throw .multipleEnsembles
   for r in o.reps do
